@@ -168,6 +168,16 @@ Theorem C03_code_put_crash_images : forall fuel s h k v img,
 Proof. exact put_crash_images. Qed.
 Print Assumptions C03_code_put_crash_images.
 
+(* opening a handle (read_header; map_blocks) writes nothing to the file, except possibly ONE cut of a torn tail: the crash
+   images of a recovery are the image itself and the image cut back -- the two cases C03_crash_reopen treats *)
+Theorem C03_code_read_header_writes_nothing : forall fuel s, effects fuel read_header_prog s = [].
+Proof. exact read_header_effects. Qed.
+Print Assumptions C03_code_read_header_writes_nothing.
+
+Theorem C03_code_map_blocks_at_most_one_cut : forall fuel s, at_most_one_cut (effects fuel map_blocks_prog s).
+Proof. exact map_blocks_effects. Qed.
+Print Assumptions C03_code_map_blocks_at_most_one_cut.
+
 (* Non-vacuity: the translated put and get RUN, on a concrete object state, and give what the model gives. *)
 Definition ex_attrs : env :=
   env_of [("_toc", VToc []); ("_last", VNone); ("_eof", VInt 32); ("_closed", VBool false); ("mode", VStr "a")].
